@@ -7,12 +7,8 @@ Open Scope Qc_scope.
 
 (** the reconstructed geometry at the origin has the layer centres of the original, shifted *)
 Lemma lcen_shift g k : (1 <= k)%nat ->
-  lcen g k - lcen (mkRgeo 0 0 0 (gdx g) (gdy g) (gdz g) 0 0 0 (fun _ _ => 0)) k = goz g.
+  lcen g k - lcen (mkRgeo 0 0 0 1 0 (gdx g) (gdy g) (gdz g) 0 0 0 0 (fun _ _ => 0)) k = goz g.
 Proof. intros Hk. destruct k; [lia|]. unfold lcen, bot, thick. cbn [goz gdz]. ring. Qed.
-Lemma ccx_shift g : ccx g 0 - ccx (mkRgeo 0 0 0 (gdx g) (gdy g) (gdz g) 0 0 0 (fun _ _ => 0)) 0 = gox g.
-Proof. unfold ccx, xlo, dxi. cbn [gox gdx firstn qsum]. ring. Qed.
-Lemma ccy_shift g : ccy g 0 - ccy (mkRgeo 0 0 0 (gdx g) (gdy g) (gdz g) 0 0 0 (fun _ _ => 0)) 0 = goy g.
-Proof. unfold ccy, ylo, dyj. cbn [goy gdy firstn qsum]. ring. Qed.
 
 Lemma ccx_increasing g m : wf g -> (1 <= m)%nat -> (m < nx g)%nat -> ccx g 0 < ccx g m.
 Proof.
@@ -28,22 +24,11 @@ Proof.
   rewrite (qsum_firstn_S (gdy g) 0) in M by (unfold ny in Hn; lia). cbn [firstn qsum] in M. fold (dyj g 0) in M.
   pose proof (dyj_pos g W m Hn) as P. pose proof (dyj_pos g W 0 ltac:(lia)) as P0. qc_lra.
 Qed.
-Lemma heading_x vx vy : 0 < vx -> vy = 0 -> heading_class vx vy = 1%nat.
-Proof.
-  intros Hx ->. unfold heading_class.
-  assert (A : qle vx 0 = false) by qc_lra. rewrite A. cbn [andb].
-  assert (B : qlt 0 vx = true) by qc_lra. assert (C : qle 0 0 = true) by (apply qle_spec; apply Qcle_refl). rewrite B, C. reflexivity.
-Qed.
-Lemma heading_y vx vy : 0 < vy -> vx = 0 -> heading_class vx vy = 2%nat.
-Proof.
-  intros Hy ->. unfold heading_class.
-  assert (C : qle 0 0 = true) by (apply qle_spec; apply Qcle_refl). rewrite C. cbn [andb].
-  assert (A : qle vy 0 = false) by qc_lra. rewrite A. cbn [andb].
-  assert (D : qlt 0 0 = false) by (apply qlt_false; apply Qcle_refl). rewrite D. cbn [andb].
-  assert (B : qlt 0 vy = true) by qc_lra. rewrite B. reflexivity.
-Qed.
-Lemma heading_zero : heading_class 0 0 = 0%nat.
-Proof. reflexivity. Qed.
+
+(** what the theorems need of the heading function: it normalises a non-zero vector given as a positive
+    multiple of a unit vector, and has no value (NaN) on the zero vector *)
+Definition heading_spec (heading : Qc -> Qc -> option (Qc * Qc)) : Prop :=
+  (forall L a b, 0 < L -> a * a + b * b = 1 -> heading (L * a) (L * b) = Some (a, b)) /\ heading 0 0 = None.
 
 Section Main.
 Set Default Proof Using "All".
@@ -61,6 +46,10 @@ Hypothesis ACT : forall k i j, present g (Cell (S k) i j) -> volume g (S k) i j 
 Hypothesis INACT : gatm g <> 2%nat -> vol_ok (Some av) (gatmvol g) = false.
 Variable nm' : cid -> K.
 Hypothesis nm'_inj : forall a b, latt g a -> latt g b -> nm' a = nm' b -> a = b.
+(** the geometry is rotated: its x-axis points along the unit vector (gax g, gay g) *)
+Hypothesis UNIT : gax g * gax g + gay g * gay g = 1.
+Variable heading : Qc -> Qc -> option (Qc * Qc).
+Hypothesis HS : heading_spec heading.
 
 Notation GG := (G K g nm cn).
 Notation blk := (blk K g nm).
@@ -68,7 +57,7 @@ Notation obc := (Cell (nz g) 0 0).
 Local Notation HY lem := (lem K keqb keqb_spec g W nm nm_inj cn CN av ACT INACT) (only parsing).
 Local Notation HZ lem := (lem K keqb keqb_spec g W nm nm_inj cn CN av ACT INACT nm' nm'_inj) (only parsing).
 
-Lemma bcen_rock k i j : (1 <= k)%nat -> bcen (blk (Cell k i j)) = Some (ccx g i, ccy g j, zc g k i j).
+Lemma bcen_rock k i j : (1 <= k)%nat -> bcen (blk (Cell k i j)) = Some (px g i j, py g i j, zc g k i j).
 Proof. intros Hk. destruct k; [lia|]. reflexivity. Qed.
 
 (** required_centres_present *)
@@ -85,72 +74,96 @@ Qed.
 
 (** ** match_position *)
 Lemma match_position_ok fxp : (fxp = false -> (2 <= nx g)%nat) -> (2 <= nx g)%nat \/ (2 <= ny g)%nat ->
-  match_position K keqb fxp GG (blk obc) (gdx g) (gdy g) (gdz g) = Ok (PosXY (gox g) (goy g), goz g).
+  match_position K keqb heading fxp GG (blk obc) (gdx g) (gdy g) (gdz g) = Ok (PosAx (gox g) (goy g) (gax g) (gay g), goz g).
 Proof.
   intros GP D2. pose proof (wf_nz g W) as NZ. pose proof (wf_nx g W) as NX. pose proof (wf_ny g W) as NY.
-  unfold match_position.
+  destruct HS as [HS1 _]. unfold match_position.
   rewrite (HY track1_start None (or_introl eq_refl) 0%nat ltac:(lia) (fuel_of K GG) (HY fuel_nx)). cbn [bind fst].
   rewrite !map_length, seq_length. rewrite (bcen_rock (nz g) 0 0 ltac:(lia)).
-  change (nz (mkRgeo 0 0 0 (gdx g) (gdy g) (gdz g) 0 0 0 (fun _ _ => 0))) with (nz g).
-  rewrite (HY zc_bottom 0%nat 0%nat ltac:(lia) ltac:(lia)). rewrite (lcen_shift g (nz g) ltac:(lia)). rewrite ccx_shift, ccy_shift.
+  change (nz (mkRgeo 0 0 0 1 0 (gdx g) (gdy g) (gdz g) 0 0 0 0 (fun _ _ => 0))) with (nz g).
+  change (ccx (mkRgeo 0 0 0 1 0 (gdx g) (gdy g) (gdz g) 0 0 0 0 (fun _ _ => 0)) 0) with (ccx g 0).
+  change (ccy (mkRgeo 0 0 0 1 0 (gdx g) (gdy g) (gdz g) 0 0 0 0 (fun _ _ => 0)) 0) with (ccy g 0).
+  rewrite (HY zc_bottom 0%nat 0%nat ltac:(lia) ltac:(lia)). rewrite (lcen_shift g (nz g) ltac:(lia)).
   destruct (Nat.leb_spec (nx g) 1) as [L|L].
-  - (* a single block in direction 1: only the repaired code finds a heading *)
+  - (* a single block in direction 1: the direction-2 track gives the heading *)
     destruct fxp; [|specialize (GP eq_refl); lia]. cbn [andb].
     rewrite (HY track2_start None (or_introl eq_refl) 0%nat ltac:(lia) (fuel_of K GG) (HY fuel_ny)). cbn [bind fst].
     rewrite map_map. destruct (ny g) as [|m] eqn:EM; [lia|]. rewrite last_of_map_seq. cbn [Nat.add].
     rewrite (bcen_rock (nz g) 0 m ltac:(lia)).
-    rewrite (heading_y (ccx g 0 - ccx g 0) (ccy g m - ccy g 0)); [reflexivity| |ring].
-    pose proof (ccy_increasing g m W ltac:(lia) ltac:(lia)). qc_lra.
+    pose proof (ccy_increasing g m W ltac:(lia) ltac:(lia)) as CI.
+    replace (px g 0 m - px g 0 0) with ((ccy g m - ccy g 0) * (- gay g)) by (unfold px; ring).
+    replace (py g 0 m - py g 0 0) with ((ccy g m - ccy g 0) * gax g) by (unfold py; ring).
+    rewrite (HS1 (ccy g m - ccy g 0) (- gay g) (gax g)); [|qc_lra|rewrite <- UNIT; ring].
+    f_equal. f_equal. f_equal; unfold px, py; ring.
   - rewrite andb_false_r. cbn [bind fst].
     rewrite map_map. destruct (nx g) as [|m] eqn:EM; [lia|]. rewrite last_of_map_seq. cbn [Nat.add].
     rewrite (bcen_rock (nz g) m 0 ltac:(lia)).
-    rewrite (heading_x (ccx g m - ccx g 0) (ccy g 0 - ccy g 0)); [reflexivity| |ring].
-    pose proof (ccx_increasing g m W ltac:(lia) ltac:(lia)). qc_lra.
+    pose proof (ccx_increasing g m W ltac:(lia) ltac:(lia)) as CI.
+    replace (px g m 0 - px g 0 0) with ((ccx g m - ccx g 0) * gax g) by (unfold px; ring).
+    replace (py g m 0 - py g 0 0) with ((ccx g m - ccx g 0) * gay g) by (unfold py; ring).
+    rewrite (HS1 (ccx g m - ccx g 0) (gax g) (gay g)); [|qc_lra|exact UNIT].
+    f_equal. f_equal. f_equal; unfold px, py; ring.
 Qed.
-(** the recorded defect: a single block in direction 1, code as it stands: NaN position *)
+(** before 0d340ee: a single block in direction 1 gave the heading of the zero vector: NaN position *)
 Lemma match_position_defect : nx g = 1%nat ->
-  match_position K keqb false GG (blk obc) (gdx g) (gdy g) (gdz g) = Ok (PosNaN, goz g).
+  match_position K keqb heading false GG (blk obc) (gdx g) (gdy g) (gdz g) = Ok (PosNaN, goz g).
 Proof.
-  intros E1. pose proof (wf_nz g W) as NZ. pose proof (wf_ny g W) as NY.
+  intros E1. pose proof (wf_nz g W) as NZ. pose proof (wf_ny g W) as NY. destruct HS as [_ HS0].
   unfold match_position.
   rewrite (HY track1_start None (or_introl eq_refl) 0%nat ltac:(lia) (fuel_of K GG) (HY fuel_nx)). cbn [bind fst andb].
   rewrite (bcen_rock (nz g) 0 0 ltac:(lia)).
-  change (nz (mkRgeo 0 0 0 (gdx g) (gdy g) (gdz g) 0 0 0 (fun _ _ => 0))) with (nz g).
+  change (nz (mkRgeo 0 0 0 1 0 (gdx g) (gdy g) (gdz g) 0 0 0 0 (fun _ _ => 0))) with (nz g).
   rewrite (HY zc_bottom 0%nat 0%nat ltac:(lia) ltac:(lia)). rewrite (lcen_shift g (nz g) ltac:(lia)).
   rewrite map_map. rewrite E1. cbn [seq map]. rewrite last_of_single. rewrite (bcen_rock (nz g) 0 0 ltac:(lia)).
-  replace (ccx g 0 - ccx g 0) with 0 by ring. replace (ccy g 0 - ccy g 0) with 0 by ring. rewrite heading_zero. reflexivity.
+  replace (px g 0 0 - px g 0 0) with 0 by ring. replace (py g 0 0 - py g 0 0) with 0 by ring. rewrite HS0. reflexivity.
 Qed.
 
 (** ** find_surface, snapping, pruning *)
 Variable snap : Qc.
 (** rectgeo's snapping moves no column surface (in particular whenever layer_snap <= 0) *)
 Hypothesis NOSNAP : forall i j, (i < nx g)%nat -> (j < ny g)%nat -> snap_surface g snap (gsurf g i j) = gsurf g i j.
+(** remove_inactive: allowed when no block has a non-positive volume (huge-volume atmosphere blocks) *)
+Variable rminact : bool.
+Hypothesis RM : rminact = true -> gatm g <> 2%nat -> 0 < gatmvol g.
 
 Definition surf_list : list Qc := map (fun c => gsurf g (fst c) (snd c)) (colidx (nx g) (ny g)).
 (** the reconstructed geometry *)
-Definition regeo (x0 y0 : Qc) : rgeo :=
-  mkRgeo x0 y0 (goz g) (gdx g) (gdy g) (gdz g) (gatm g) 0 0 (list_surf (nx g) surf_list (goz g)).
-Definition pruned_log (x0 y0 : Qc) : list (K * K) :=
-  filter (fun p => key_in K keqb (fst p) (map (fun c => nm' (cc c)) (cells (regeo x0 y0)))) (full_log K g nm nm').
+Definition regeo (p : posres) : rgeo :=
+  mkRgeo (pos_x p) (pos_y p) (goz g) (pos_ax p) (pos_ay p) (gdx g) (gdy g) (gdz g) (gatm g) 0 0 (goz g) (list_surf (nx g) surf_list (goz g)).
+Definition pruned_log (p : posres) : list (K * K) :=
+  filter (fun e => key_in K keqb (fst e) (map (fun c => nm' (cc c)) (cells (regeo p)))) (full_log K g nm nm').
+
+Lemma rm_scan_nil l : (forall b, In b l -> rminact && qle (bvol b) 0 = false) -> rm_scan K rminact false l = [].
+Proof.
+  induction l as [|b l IH]; intros H; [reflexivity|]. cbn [rm_scan orb]. rewrite (H b (or_introl eq_refl)). cbn [app].
+  apply IH. intros b' Hb'. apply H. right. exact Hb'.
+Qed.
+Lemma remove_nil : remove_blocks K rminact GG = [].
+Proof.
+  unfold remove_blocks. apply rm_scan_nil. intros b Hb. destruct rminact eqn:ER; [|reflexivity]. cbn [andb].
+  unfold G, rect_blocks in Hb. cbn [blocks] in Hb. apply in_map_iff in Hb. destruct Hb as [c [<- Hc]].
+  apply in_cells_iff in Hc. destruct Hc as [P E]. rewrite E.
+  destruct (cc c) as [|[|k] i j]; cbn [mk_block bvol cellof rock_cell cvol fst snd]; cbn [present] in P.
+  - assert (0 < gatmvol g) by (apply RM; [reflexivity|rewrite P; discriminate]). qc_lra.
+  - destruct P as [A _]. assert (0 < gatmvol g) by (apply RM; [reflexivity|rewrite A; discriminate]). qc_lra.
+  - destruct P as [Hk [Hi [Hj Hh]]]. pose proof (volume_pos g W (S k) i j Hk Hi Hj Hh). qc_lra.
+Qed.
 
 Lemma finish_ok pos : (nz g <= fuel_of K GG)%nat ->
-  finish K keqb GG av snap (gatm g) nm' (gdx g) (gdy g) (gdz g) (full_log K g nm nm') pos (goz g) =
-  Ok (mkResult (gdx g) (gdy g) (gdz g) pos (goz g) surf_list
-               (pruned_log (match pos with PosXY x _ => x | _ => 0 end) (match pos with PosXY _ y => y | _ => 0 end))).
+  finish K keqb GG av snap (gatm g) nm' [] (gdx g) (gdy g) (gdz g) (full_log K g nm nm') pos (goz g) =
+  Ok (mkResult (gdx g) (gdy g) (gdz g) pos (goz g) surf_list (pruned_log pos)).
 Proof.
   intros FU. unfold finish. cbv zeta.
-  set (x0 := match pos with PosXY x _ => x | _ => 0 end). set (y0 := match pos with PosXY _ y => y | _ => 0 end).
-  change (nx (mkRgeo x0 y0 (goz g) (gdx g) (gdy g) (gdz g) (gatm g) 0 0 (fun _ _ => goz g))) with (nx g).
-  change (ny (mkRgeo x0 y0 (goz g) (gdx g) (gdy g) (gdz g) (gatm g) 0 0 (fun _ _ => goz g))) with (ny g).
+  set (g1 := mkRgeo (pos_x pos) (pos_y pos) (goz g) (pos_ax pos) (pos_ay pos) (gdx g) (gdy g) (gdz g) (gatm g) 0 0 (goz g) (fun _ _ => goz g)).
+  change (nx g1) with (nx g). change (ny g1) with (ny g).
   rewrite (mapM_ok _ (fun c => gsurf g (fst c) (snd c))).
   - cbn [bind]. fold surf_list.
-    assert (SN : map (snap_surface (mkRgeo x0 y0 (goz g) (gdx g) (gdy g) (gdz g) (gatm g) 0 0 (fun _ _ => goz g)) snap) surf_list = surf_list).
+    assert (SN : map (snap_surface g1 snap) surf_list = surf_list).
     { unfold surf_list. rewrite map_map. apply map_ext_in. intros [i j] Hin. apply in_colidx in Hin. cbn [fst snd].
-      change (snap_surface (mkRgeo x0 y0 (goz g) (gdx g) (gdy g) (gdz g) (gatm g) 0 0 (fun _ _ => goz g)) snap (gsurf g i j))
-        with (snap_surface g snap (gsurf g i j)). apply NOSNAP; tauto. }
+      change (snap_surface g1 snap (gsurf g i j)) with (snap_surface g snap (gsurf g i j)). apply NOSNAP; tauto. }
     rewrite SN. reflexivity.
   - intros [i j] Hin. apply in_colidx in Hin. cbn [fst snd].
-    apply (HZ find_col_surface_ok x0 y0 (gatm g) (fun _ _ => goz g) i j); tauto.
+    apply (HZ find_col_surface_ok (pos_x pos) (pos_y pos) (pos_ax pos) (pos_ay pos) (gatm g) (fun _ _ => goz g) (goz g) i j); tauto.
 Qed.
 
 (** ** the whole of rectgeo *)
@@ -160,44 +173,56 @@ Hypothesis Hj0 : (j0 < ny g)%nat.
 (** some column reaches the top of layer 1 *)
 Hypothesis TOP : goz g <= gsurf g i0 j0.
 Hypothesis D2 : (2 <= nx g)%nat \/ (2 <= ny g)%nat.
+(** origin_block: not given, or the name of the first block of the bottom layer *)
+Variable obk : option K.
+Hypothesis OBK : obk = None \/ obk = Some (nm obc).
+
+Lemma origin_ok :
+  match obk with
+  | Some k => match find_block K keqb GG k with Some b => Ok b | None => Raise KeyError end
+  | None => match find_origin_block K GG with Some b => Ok b | None => Raise ValueError end
+  end = Ok (blk obc).
+Proof.
+  destruct OBK as [-> | ->].
+  - rewrite (HY origin_block). reflexivity.
+  - rewrite (find_block_present K keqb keqb_spec g nm nm_inj cn CN obc (HY ob_present)). reflexivity.
+Qed.
 
 Theorem rectgeo_exact fxp fx2 :
   (fxp = false -> (2 <= nx g)%nat) ->
   (fx2 = false -> (nx g = 1%nat \/ ny g = 1%nat) -> has g (nz g - 1) 0 0 = true \/ (gatm g < 2)%nat) ->
-  rectgeo K keqb fxp fx2 GG av snap (gatm g) nm' =
-  Ok (mkResult (gdx g) (gdy g) (gdz g) (PosXY (gox g) (goy g)) (goz g) surf_list (pruned_log (gox g) (goy g))).
+  rectgeo K keqb heading fxp fx2 GG obk av rminact snap (gatm g) nm' =
+  Ok (mkResult (gdx g) (gdy g) (gdz g) (PosAx (gox g) (goy g) (gax g) (gay g)) (goz g) surf_list
+               (pruned_log (PosAx (gox g) (goy g) (gax g) (gay g)))).
 Proof.
-  intros GP G2. unfold rectgeo. rewrite required_ok. cbn [negb].
-  rewrite (HY origin_block).
+  intros GP G2. unfold rectgeo. rewrite required_ok. cbn [negb]. rewrite origin_ok. cbn [bind].
   rewrite (HY block_spacings_ok D2 fx2 i0 j0 Hi0 Hj0 TOP G2). cbn [bind].
   change (length (gdx g)) with (nx g). change (length (gdy g)) with (ny g). change (length (gdz g)) with (nz g).
   rewrite (HZ block_mapping_ok). cbn [bind].
-  rewrite (match_position_ok fxp GP D2). cbn [bind fst snd].
-  rewrite (finish_ok (PosXY (gox g) (goy g)) (HY fuel_nz i0 j0 Hi0 Hj0 TOP)). reflexivity.
+  rewrite (match_position_ok fxp GP D2). cbn [bind fst snd]. rewrite remove_nil.
+  rewrite (finish_ok _ (HY fuel_nz i0 j0 Hi0 Hj0 TOP)). reflexivity.
 Qed.
-(** the recorded defect "single block in direction 1" in full generality: everything but the
+(** the defect repaired by 0d340ee, "single block in direction 1", in full generality: everything but the
     horizontal position is recovered, the position is NaN *)
 Theorem rectgeo_single_block_nan fx2 : nx g = 1%nat ->
   (fx2 = false -> has g (nz g - 1) 0 0 = true \/ (gatm g < 2)%nat) ->
-  rectgeo K keqb false fx2 GG av snap (gatm g) nm' =
-  Ok (mkResult (gdx g) (gdy g) (gdz g) PosNaN (goz g) surf_list (pruned_log 0 0)).
+  rectgeo K keqb heading false fx2 GG obk av rminact snap (gatm g) nm' =
+  Ok (mkResult (gdx g) (gdy g) (gdz g) PosNaN (goz g) surf_list (pruned_log PosNaN)).
 Proof.
-  intros E1 G2. unfold rectgeo. rewrite required_ok. cbn [negb].
-  rewrite (HY origin_block).
+  intros E1 G2. unfold rectgeo. rewrite required_ok. cbn [negb]. rewrite origin_ok. cbn [bind].
   rewrite (HY block_spacings_ok D2 fx2 i0 j0 Hi0 Hj0 TOP ltac:(intros; apply G2; assumption)). cbn [bind].
   change (length (gdx g)) with (nx g). change (length (gdy g)) with (ny g). change (length (gdz g)) with (nz g).
   rewrite (HZ block_mapping_ok). cbn [bind].
-  rewrite (match_position_defect E1). cbn [bind fst snd].
+  rewrite (match_position_defect E1). cbn [bind fst snd]. rewrite remove_nil.
   rewrite (finish_ok PosNaN (HY fuel_nz i0 j0 Hi0 Hj0 TOP)). reflexivity.
 Qed.
 
-(** the recorded defect "2-D grid, no atmosphere blocks, origin column holds a single block" in full
-    generality: the code as it stands raises IndexError *)
+(** the defect repaired by 8b5d11e, "2-D grid, no atmosphere blocks, origin column holds a single block", in
+    full generality: IndexError *)
 Theorem rectgeo_2d_indexerror fxp : (nx g = 1%nat \/ ny g = 1%nat) -> has g (nz g - 1) 0 0 = false -> (2 <= gatm g)%nat ->
-  rectgeo K keqb fxp false GG av snap (gatm g) nm' = Raise IndexError.
+  rectgeo K keqb heading fxp false GG obk av rminact snap (gatm g) nm' = Raise IndexError.
 Proof.
-  intros E Hh A. unfold rectgeo. rewrite required_ok. cbn [negb].
-  rewrite (HY origin_block).
+  intros E Hh A. unfold rectgeo. rewrite required_ok. cbn [negb]. rewrite origin_ok. cbn [bind].
   rewrite (HY block_spacings_defect D2 i0 j0 Hi0 Hj0 TOP E Hh A). reflexivity.
 Qed.
 End Main.
